@@ -66,6 +66,11 @@ prop("C08",
      rule="f64: every exponent (3 values each), neighbours of every power of ten, 10k random bit patterns (200k thorough); f32: every exponent + 10k random (all 2^32 in the thorough tier, implementation-only sweep); all u8/i8, sampled/boundary wider integers incl. 128-bit; DOM u64/i64/f64 routes; raw numbers from 1500 literals bare and quoted plus malformed ones: the printed text must be an RFC number whose exact value (Spec/Num.v) is the value written",
      assumptions=["ryu and itoa are outside the repository: their output is checked case by case (valid number, denotes the value), not proved"])
 
+prop("C05",
+     rule="unit: format_string through the hook on strings of every length 0..100 (0..200 thorough) with one of 16 special characters at block-edge positions (+ optional second special), each also placed so that it ends exactly on a page boundary followed by an inaccessible page, canary behind the reserved window; API: generated values of the whole serde data model (all integer widths incl. 128-bit, f32/f64 incl. non-finite and subnormal, chars, arbitrary Unicode strings, bytes, options, units, seqs, tuples, maps with scalar keys of 6 kinds, structs, the four enum shapes) through to_string / to_string_pretty / to_vec / to_writer over Vec, BufferedWriter, io::BufWriter, BytesMut writer, and a sink failing after n bytes; maps with non-scalar keys must be refused",
+     unit_ops={"fmtstr"},
+     assumptions=["ryu/itoa: a printed number is accepted when it denotes exactly the value written (Spec/Num.v)"])
+
 def classify_known(pid, case, known):
     """return the id of the recorded known finding this mismatch belongs to, or None"""
     for k in known:
